@@ -8,6 +8,7 @@ import MoSql.Window
 import MoSql.Skip
 import MoSql.Dml
 import MoSql.Peg
+import MoSql.Sources
 /-
 Line-protocol driver: one JSON request per line on stdin, one JSON answer per line on stdout.
 Imports the model files and Lean's JSON library only (no Mathlib), so it is also built as the
@@ -461,6 +462,40 @@ def handleFlatCol (req : Json) : Except String String := do
   let show_ (l : List (String × String)) : String := "[" ++ ",".intercalate (l.map fun (k, v) => "[" ++ jstr k ++ "," ++ v ++ "]") ++ "]"
   pure ("{\"keys\":" ++ show_ r.keys ++ ",\"type\":" ++ jstr r.typeName ++ ",\"kw\":" ++ show_ r.typeKw ++ "}")
 
+/-- `Sources.fmt` on a list of sources: item = ["plain", src] | ["join", kind, src, cond]; src = ["tbl", name] | ["group", [items]];
+cond = ["none"] | ["on", k] | ["using", k] -/
+partial def srcOfJson : Json → Except String Sources.Src
+  | .arr #[.str "tbl", .str n] => pure (.tbl n)
+  | .arr #[.str "group", .arr items] => do pure (.group (← items.toList.mapM itemOfJson))
+  | _ => err "source expected"
+where
+  itemOfJson : Json → Except String Sources.Item
+    | .arr #[.str "plain", s] => do pure (.plain (← srcOfJson s))
+    | .arr #[.str "join", .str k, s, c] => do
+      let cond ← match c with
+        | .arr #[.str "none"] => pure Sources.Cond.none
+        | .arr #[.str "on", (.num n)] => pure (Sources.Cond.on n.mantissa.toNat)
+        | .arr #[.str "using", (.num n)] => pure (Sources.Cond.using n.mantissa.toNat)
+        | _ => err "condition expected"
+      pure (.join k (← srcOfJson s) cond)
+    | _ => err "item expected"
+
+def handleSources (req : Json) : Except String String := do
+  let items ← match (← req.getObjVal? "items") with
+    | .arr xs => xs.toList.mapM srcOfJson.itemOfJson
+    | _ => err "list of items expected"
+  let ts := Sources.fmt items
+  let show_ : Sources.Tok → String
+    | .name n => jstr ("n:" ++ n)
+    | .lp => jstr "("
+    | .rp => jstr ")"
+    | .comma => jstr ","
+    | .join k => jstr ("j:" ++ k)
+    | .on k => jstr ("on:" ++ toString k)
+    | .using k => jstr ("using:" ++ toString k)
+  pure ("{\"tokens\":[" ++ ",".intercalate (ts.map show_) ++ "],\"separated\":" ++ toString (Sources.wellSeparated ts)
+    ++ ",\"balanced\":" ++ toString (Sources.balanced ts) ++ "}")
+
 def handle (line : String) : String :=
   match Json.parse line with
   | .error e => "{\"error\":" ++ jstr ("json: " ++ e) ++ "}"
@@ -480,6 +515,7 @@ def handle (line : String) : String :=
       | .ok "insert" => handleInsert req
       | .ok "peg" => handlePeg req
       | .ok "flatcol" => handleFlatCol req
+      | .ok "sources" => handleSources req
       | .ok "fmtTable" => pure handleFmtTable
       | .ok "ping" => pure "{\"pong\":true}"
       | .ok o => err ("unknown op " ++ o)
